@@ -66,7 +66,32 @@ def pavSeqJson (votes : Profile) : List Rat → List Nat → List Json
   | _, [] => []
   | coefs, n :: ns => pavJson coefs votes n :: pavSeqJson votes (pavStep coefs votes n).2 ns
 
-def handle (op : String) (j : Json) : Option (Except String Json) :=
+/-- counts as JSON numbers or as "p/q" strings -/
+def getWeightedProfile (j : Json) : Except String WProfile := do
+  let v ← j.getObjVal? "votes"
+  let arr ← fromJson? (α := Array (Array (Nat × String) × Json)) v
+  arr.toList.mapM (fun (b, w) => do
+    let bl ← b.toList.mapM (fun (c, s) => match parseRat s with
+      | some r => pure (c, r)
+      | none => throw s!"bad rational {s}")
+    let wr ← match w with
+      | Json.str s => (match parseRat s with
+        | some r => pure r
+        | none => throw s!"bad rational {s}")
+      | _ => do let i ← fromJson? (α := Int) w; pure ((i : Int) : Rat)
+    pure (bl, wr))
+
+def quotaByName : String → Option (Rat → Nat → Rat)
+  | "hare" => some Gen.Quota.hare
+  | "hare_rounded" => some Gen.Quota.hare_rounded
+  | "droop" => some Gen.Quota.droop
+  | "hagenbach_bischoff" => some Gen.Quota.hagenbach_bischoff
+  | "hagenbach_bischoff_ceil" => some Gen.Quota.hagenbach_bischoff_ceil
+  | "hagenbach_bischoff_rounded" => some Gen.Quota.hagenbach_bischoff_rounded
+  | "imperiali" => some Gen.Quota.imperiali
+  | _ => none
+
+def handle1 (op : String) (j : Json) : Option (Except String Json) :=
   match op with
   | "pav" => some do
     let votes ← getApproval j
@@ -112,12 +137,26 @@ def handle (op : String) (j : Json) : Option (Except String Json) :=
         else withKeys (schulze r.2 n) (schulzeScores r.2)
       | .error e => errJson e)
   | "allocated" => some do
-    let votes ← getScoreProfile j
+    let cv ← getWeightedProfile j
     let n ← j.getObjValAs? Nat "n"
     let qn ← j.getObjValAs? String "quota"
-    let q ← if qn = "droop" then pure Gen.Quota.droop else if qn = "hare" then pure Gen.Quota.hare
-      else throw s!"unknown quota {qn}"
-    pure (exceptJson keyListJson (allocatedSelector q votes n))
+    let q ← match quotaByName qn with
+      | some q => pure q
+      | none => throw s!"unknown quota {qn}"
+    pure (exceptJson keyListJson (allocatedSelectorW q cv n))
   | _ => none
+
+/-- `seq`: the runs of one evaluator object called several times; the models are pure functions of their input -/
+def handle (op : String) (j : Json) : Option (Except String Json) :=
+  match op with
+  | "seq" => some do
+    let runs ← j.getObjValAs? (Array Json) "runs"
+    let outs ← runs.toList.mapM (fun r => do
+      let o ← r.getObjValAs? String "op"
+      match handle1 o r with
+      | some x => x
+      | none => throw s!"bad-op {o}")
+    pure (Json.arr outs.toArray)
+  | _ => handle1 op j
 
 end VL.Drv.C12
